@@ -1399,6 +1399,12 @@ def main():
             except RecursionError:
                 ent["methods"][m] = None
                 report["aborted"].append({"class": name, "method": m, "reason": "recursion limit"})
+        # in-place writes onto a DATA-SHAPED tensor field are fallible (see mark_fallible_inplace)
+        upd = ent["methods"].get("update")
+        if upd is not None:
+            U = data_shaped_fields(upd, kinds)
+            ent["data_shaped"] = sorted(U)
+            ent["methods"]["update"] = mark_fallible_inplace(upd, U)
 
     # ---- functionals ---------------------------------------------------------------------------
     import torcheval.metrics.functional as F
@@ -1532,6 +1538,31 @@ def dedupe(recs):
             seen.add(k)
             out.append(r)
     return out
+
+
+def data_shaped_fields(update_sk, kinds) -> set:
+    """tensor fields whose shape is established by the data: update() itself re-binds them to a
+    computed tensor (`self.f = statistic` on the first call, `self.f += statistic` afterwards).  A
+    re-binding to (a view of) the field itself (`setattr(self, f, alias of self.f)`) does not count."""
+    return {a[1] for a in EC.atoms(update_sk)
+            if a[0] == "Bind" and a[2][0] != "Imm" and a[2] != ("SelfAlias", a[1]) and kinds.get(a[1]) == "tensor"}
+
+
+def mark_fallible_inplace(sk, U):
+    """C14 refinement: `self.f += e` / `self.f[i] = e` on a data-shaped field f raises when a later
+    batch has another width (the state kept the first batch's shape), so it is emitted as
+    `MayRaise "inplace:f"; InPlace f`: accepted as the FIRST state write of a path, rejected after
+    another write (MeanSquaredError: `sum_weight +=` before `sum_squared_error +=`).  In-place writes
+    onto fields whose shape is fixed by the constructor stay non-raising (assumption: the validated
+    arguments determine the statistic's shape; dtype faults are covered dynamically)."""
+    t = sk[0]
+    if t == "InPlace" and sk[1] in U:
+        return ("Seq", ("MayRaise", "inplace:" + sk[1]), sk)
+    if t in ("If", "Seq"):
+        return (t, mark_fallible_inplace(sk[1], U), mark_fallible_inplace(sk[2], U))
+    if t == "Loop":
+        return (t, mark_fallible_inplace(sk[1], U))
+    return sk
 
 
 def tuple_atom(item):
